@@ -1,0 +1,22 @@
+// Copyright © 2022-2026 Obol Labs Inc. Licensed under the terms of a Business Source License 1.1
+
+//go:build verif
+
+package qbft
+
+import (
+	"context"
+
+	"github.com/libp2p/go-libp2p/core/peer"
+
+	pbv1 "github.com/obolnetwork/charon/core/corepb/v1"
+)
+
+// VerifHandle only exists in builds with the `verif` tag. It hands msg to the consensus receive
+// handler exactly as the registered libp2p stream handler does and returns the handler's error,
+// which production code only logs. It changes no behaviour.
+func (c *Consensus) VerifHandle(ctx context.Context, from peer.ID, msg *pbv1.QBFTConsensusMsg) error {
+	_, _, err := c.handle(ctx, from, msg)
+
+	return err
+}
